@@ -323,6 +323,12 @@ func runChild(t *testing.T, spec *Spec) {
 			if progress.Load() != p0 || curCase.Load() != idx {
 				continue
 			}
+			// A bubble case needs well under a second of CPU. One that made no progress
+			// for three minutes is stuck even if the dumps show a runnable goroutine
+			// (observed on a fresh sandbox); it is skipped like a frozen one.
+			if !idle && inBubble && age >= 180*time.Second {
+				idle = true
+			}
 			if !idle && age < spec.CaseTimeout {
 				continue
 			}
@@ -498,7 +504,10 @@ func blockedCentrifugeFrames(dump string) string {
 // anyRunnable reports whether a full goroutine dump shows a goroutine that is
 // running or runnable, not counting the one that took the dump.
 func anyRunnable(dump string) bool {
-	for _, g := range strings.Split(dump, "\n\n") {
+	for n, g := range strings.Split(dump, "\n\n") {
+		if n == 0 {
+			continue // runtime.Stack prints the calling goroutine first
+		}
 		if !strings.HasPrefix(g, "goroutine ") {
 			continue
 		}
